@@ -89,3 +89,32 @@ Proof. vm_compute. repeat split; auto. Qed.
 (* the validity test of the goto cache visits every start situation of the cached set *)
 Lemma cache_check_loop_ok : cache_check_visits_all_start_sits = true.
 Proof. reflexivity. Qed.
+
+(* growth of the variable length object and of the object stack segment: the expressions of the C and of the C++
+   source are the same and they are the ones of the container model (Containers.grow, the length in Containers.oexpand) *)
+From YV Require Import Containers.
+Lemma vlo_growth_same : forall len add, vlo_new_len_cpp len add = vlo_new_len_c len add.
+Proof. reflexivity. Qed.
+Lemma os_growth_same : forall len add dflt, os_new_seg_cpp len add dflt = os_new_seg_c len add dflt.
+Proof. reflexivity. Qed.
+Lemma vlo_growth_is_the_models : forall len add : nat,
+  vlo_new_len_c (Z.of_nat len) (Z.of_nat add) = Z.of_nat (grow (len + add)).
+Proof.
+  intros len add. unfold vlo_new_len_c, grow. cbv zeta.
+  rewrite !Nat2Z.inj_add. rewrite Nat2Z.inj_div. rewrite !Nat2Z.inj_add. simpl Z.of_nat. lia.
+Qed.
+Lemma os_growth_is_the_models : forall len add : nat,
+  os_new_seg_c (Z.of_nat len) (Z.of_nat add) (Z.of_nat os_default) =
+  Z.of_nat (Nat.max os_default ((len + add) + (len + add) / 2 + 1)).
+Proof.
+  intros len add. unfold os_new_seg_c. cbv zeta.
+  set (need := (len + add)%nat).
+  assert (E : (Z.of_nat len + Z.of_nat add + ((Z.of_nat len + Z.of_nat add) / 2 + 1)) = Z.of_nat (need + need / 2 + 1)%nat).
+  { unfold need. rewrite !Nat2Z.inj_add. rewrite Nat2Z.inj_div. rewrite !Nat2Z.inj_add. simpl Z.of_nat. lia. }
+  rewrite E. destruct (Z.ltb_spec (Z.of_nat (need + need / 2 + 1)%nat) (Z.of_nat os_default)).
+  - rewrite Nat.max_l by lia. reflexivity.
+  - rewrite Nat.max_r by lia. reflexivity.
+Qed.
+(* the new length leaves room for what is about to be added *)
+Lemma vlo_growth_has_room : forall len add, 0 <= len -> 0 <= add -> len + add < vlo_new_len_c len add.
+Proof. intros len add H1 H2. unfold vlo_new_len_c. cbv zeta. pose proof (Z.div_pos (len + add) 2). lia. Qed.
